@@ -1,3 +1,4 @@
+import os
 import re
 from typing import Optional, List, Tuple, Match, Pattern
 from .util import (
@@ -31,6 +32,9 @@ _BLOCK_TAGS_PATTERN = "(" + "|".join(BLOCK_TAGS) + "|" + "|".join(PRE_TAGS) + ")
 _OPEN_TAG_END = re.compile(HTML_ATTRIBUTES + r"[ \t]*>[ \t]*(?:\n|$)")
 _CLOSE_TAG_END = re.compile(r"[ \t]*>[ \t]*(?:\n|$)")
 _STRICT_BLOCK_QUOTE = re.compile(r"( {0,3}>[^\n]*(?:\n|$))+")
+
+# verification hook (off unless MISTUNE_VERIF=1): see parse_ref_link
+_VERIF = os.environ.get("MISTUNE_VERIF") == "1"
 
 
 class BlockParser(Parser[BlockState]):
@@ -286,6 +290,11 @@ class BlockParser(Parser[BlockState]):
             if title:
                 data["title"] = title
             state.env["ref_links"][key] = data
+            if _VERIF:
+                state.env.setdefault("__verif_defs__", []).append((state.src[m.start() : end_pos], key, True))
+        elif _VERIF:
+            # an ignored duplicate definition: its source slice is consumed all the same
+            state.env.setdefault("__verif_defs__", []).append((state.src[m.start() : end_pos], key, False))
         return end_pos
 
     def extract_block_quote(self, m: Match[str], state: BlockState) -> Tuple[str, Optional[int]]:
